@@ -113,6 +113,8 @@ func GetDocCommentOn(file *ast.File, obj types.Object) (cg *ast.CommentGroup, cl
 		return nil, func() {}
 	}
 
+	// Walk outwards from the identifier and stop at the node that declares obj: a doc comment
+	// further out belongs to an enclosing declaration (or to the package), not to obj.
 	for _, node := range nodes {
 		switch n := node.(type) {
 		case *ast.GenDecl:
@@ -123,6 +125,7 @@ func GetDocCommentOn(file *ast.File, obj types.Object) (cg *ast.CommentGroup, cl
 					}
 				}
 			}
+			return nil, func() {}
 		case *ast.FuncDecl:
 			if n.Doc != nil {
 				return n.Doc, func() {
@@ -131,7 +134,9 @@ func GetDocCommentOn(file *ast.File, obj types.Object) (cg *ast.CommentGroup, cl
 					}
 				}
 			}
+			return nil, func() {}
 		case *ast.TypeSpec:
+			// An ungrouped type declaration carries its doc comment on the enclosing GenDecl.
 			if n.Doc != nil {
 				return n.Doc, func() {
 					if len(n.Doc.List) == 0 {
@@ -147,14 +152,7 @@ func GetDocCommentOn(file *ast.File, obj types.Object) (cg *ast.CommentGroup, cl
 					}
 				}
 			}
-		case *ast.File:
-			if n.Doc != nil {
-				return n.Doc, func() {
-					if len(n.Doc.List) == 0 {
-						n.Doc = nil
-					}
-				}
-			}
+			return nil, func() {}
 		}
 	}
 	return nil, func() {}
